@@ -59,6 +59,15 @@ CHECKS = {
             'checked against the identifiers of F (CPython parser) and F namespace. Every name root must have been requested at least once.',
             'Identifier set taken from ast.parse of inspect.getsource(F).',
             'DESIGN.md 3/C11'),
+    'C14': ('exploration',
+            'differential of each overload against the builtin with logging iterators (laziness) and captured output',
+            'Every accepted call shape of the 13 substituted builtins over 10+ value classes (incl. rejected values) is executed on '
+            'the builtin and on py_builtins.overload_of(builtin) with fresh copies of the arguments; result type/value, item '
+            'sequence, the number of items pulled from each argument before and after every next(), stdout/file output and exception '
+            'class are compared. eval/locals/globals/super() are exercised inside real converted functions at nesting 0-3, '
+            'including explicit-namespace eval and the explicit-then-implicit super sequence.',
+            'Call shapes the builtin rejects by signature are not compared.',
+            'DESIGN.md 3/C14'),
     'C15': ('exploration',
             'differential of parser.parse_entity against ast.parse of the compiled module file, over hostile generated layouts',
             'Module files are generated with every layout feature of the quantifier; each function object found at run time '
